@@ -4,6 +4,7 @@ import JominiModel.Proofs.BinTapeEq
 import JominiModel.Proofs.BinTapeWf
 import JominiModel.Proofs.BinTapeFaithful
 import JominiModel.Proofs.BinTapeTotal
+import JominiModel.Proofs.BinTapeNested
 /-
 C03 — the binary tape mirrors the token stream; the fast paths are unobservable.
 Only property theorems live here; helper lemmas are in `Proofs/BinTape*.lean`.
@@ -155,6 +156,24 @@ theorem C03_faithful_partial (doc : Fields) (hflat : doc.flat = true) (hw : doc.
   cases opt
   · exact faithful_flat doc hflat hw
   · rw [C03_fast_eq_reference]; exact faithful_flat doc hflat hw
+
+/-- Faithfulness, fragment 1 (nested): keys and values of all ten scalar types, objects and arrays
+nested to any depth, empty containers, rgb blocks as values, ghost `{}` objects in front of any key
+that is not the first key of its object (`Fields.nest1`).  Both parsers return exactly
+`tapeOfBin doc`: containers classified object / array, delimited, ghosts dropped. -/
+theorem C03_faithful_nested_partial (doc : Fields) (hn : doc.nest1 = true) (hw : doc.wfDoc = true) (opt : Bool) :
+    parse opt doc.encode = .ok (tapeOfBin doc) := by
+  cases opt
+  · exact faithful_nest1 doc hn hw
+  · rw [C03_fast_eq_reference]; exact faithful_nest1 doc hn hw
+
+/-- hypotheses satisfiable: `id = { "a" = { I32 1 { } }  {} I32 5 = rgb{1 2 3 4} }  {} 11 = { }` -/
+example :
+    let doc : Fields :=
+      .cons 0 (.id 0x2d82) (.obj (.cons 0 (.quoted [97]) (.arr (.cons (.sc (.i32 [1, 0, 0, 0])) (.cons (.arr .nil) .nil)))
+        (.cons 2 (.i32 [5, 0, 0, 0]) (.rgb [1, 0, 0, 0] [2, 0, 0, 0] [3, 0, 0, 0] (some [4, 0, 0, 0])) .nil)))
+      (.cons 1 (.id 11) (.arr .nil) .nil)
+    doc.nest1 = true ∧ doc.wfDoc = true := by decide
 
 /-- hypotheses satisfiable: `id = I32 5  {} "a" = U64 7` -/
 example : (Fields.cons 0 (.id 0x2d82) (.sc (.i32 [5, 0, 0, 0]))
